@@ -1343,3 +1343,530 @@ Proof.
       exists st. split; [exact Hrds|]. cbn [schema_loop]. rewrite (is_no st KEOF _ Hk) by reflexivity.
       rewrite Hpa. cbn [sbind]. rewrite Hi1, Hrt. cbn [sbind]. rewrite Hpn. cbn [sbind]. rewrite Hfx. exact Hp2.
 Qed.
+
+(* ------------------------------------------------------------------------------------------ *)
+(* The whole schema                                                                            *)
+(* ------------------------------------------------------------------------------------------ *)
+Definition named_kv (kv : str * x_ns) : bool := negb (is_nil (fst kv)).
+Definition sitems_of (s : x_schema) : list sitem :=
+  (match rec_get [] s with Some n => map SD (items_of n) | None => [] end) ++ map SN (filter named_kv s).
+
+Lemma sfresh_app : forall a b p, sfresh (a ++ b) p <-> sfresh a p /\ sfresh b (ssteps a p).
+Proof.
+  induction a as [|x a IH]; intros b p; cbn [app sfresh ssteps fold_left]; [tauto|].
+  fold (ssteps a (sstep x p)). rewrite IH. tauto.
+Qed.
+Lemma ssteps_app : forall a b p, ssteps (a ++ b) p = ssteps b (ssteps a p).
+Proof. intros a b p. unfold ssteps. apply fold_left_app. Qed.
+
+Lemma ssteps_SD : forall its b m, ssteps (map SD its) (b, m) = (add_items its b, m) /\ (fresh_chain its b -> sfresh (map SD its) (b, m)).
+Proof.
+  induction its as [|it its IH]; intros b m; [split; [reflexivity|intros _; exact I]|].
+  cbn [map ssteps fold_left sstep fst snd sfresh sfresh1 fresh_chain add_items]. fold (ssteps (map SD its)). fold (add_items its).
+  destruct (IH (add_item it b) m) as [E F]. split; [exact E|]. intros [H1 H2]. split; [exact H1|exact (F H2)].
+Qed.
+
+Lemma ssteps_SN : forall l pre b, keys_sorted (pre ++ l) = true ->
+  ssteps (map SN l) (b, mapv norm_ns_t pre) = (b, mapv norm_ns_t (pre ++ l)) /\ sfresh (map SN l) (b, mapv norm_ns_t pre).
+Proof.
+  induction l as [|[k v] l IH]; intros pre b Hs.
+  - rewrite app_nil_r. split; [reflexivity|exact I].
+  - pose proof (sorted_snoc _ _ _ _ Hs) as Hs1.
+    cbn [map ssteps fold_left sstep fst snd sfresh sfresh1]. fold (ssteps (map SN l)).
+    rewrite insert_mapv_last by exact Hs1. rewrite (has_key_mapv_last _ _ _ _ _ _ Hs1).
+    destruct (IH (pre ++ [(k, v)]) b ltac:(rewrite <- app_assoc; exact Hs)) as [E F]. rewrite <- app_assoc in E.
+    split; [exact E|]. split; [reflexivity|exact F].
+Qed.
+
+Lemma str_ltb_nil_r : forall k, str_ltb k [] = false.
+Proof. intros [|c k]; reflexivity. Qed.
+
+Lemma sorted_tail_nonnil : forall (A : Type) k (v : A) l, keys_sorted ((k, v) :: l) = true -> Forall (fun kv => fst kv <> []) l.
+Proof.
+  intros A k v l Hs. pose proof (vj_sorted_all_lt _ _ _ Hs) as HF. eapply Forall_impl; [|exact HF].
+  intros [k' v'] Hlt E. cbn [fst] in *. subst k'. rewrite str_ltb_nil_r in Hlt. discriminate.
+Qed.
+
+Lemma filter_named_all : forall l : x_schema, Forall (fun kv => fst kv <> []) l -> filter named_kv l = l.
+Proof.
+  intros l H. induction H as [|[k v] l Hk Hl IH]; [reflexivity|]. cbn [filter named_kv fst] in *.
+  destruct k; [contradiction|]. cbn [is_nil negb]. rewrite IH. reflexivity.
+Qed.
+Lemma filter_keep_all : forall l : x_schema, Forall (fun kv => fst kv <> []) l -> filter ns_keep l = l.
+Proof.
+  intros l H. induction H as [|[k v] l Hk Hl IH]; [reflexivity|]. cbn [filter]. unfold ns_keep at 1. cbn [fst] in *.
+  destruct k; [contradiction|]. cbn [is_nil negb orb]. rewrite IH. reflexivity.
+Qed.
+Lemma rec_get_nil_none : forall l : x_schema, Forall (fun kv => fst kv <> []) l -> rec_get [] l = None.
+Proof.
+  intros l H. induction H as [|[k v] l Hk Hl IH]; [reflexivity|]. cbn [rec_get fst] in *. destruct k; [contradiction|]. exact IH.
+Qed.
+
+Lemma wf_text_in : forall s kv, wf_text s = true -> In kv s ->
+  wf_ns_t (snd kv) = true /\ (fst kv = [] -> xs_annots (snd kv) = []) /\ (fst kv <> [] -> ns_path (fst kv) = true).
+Proof.
+  intros s kv H Hin. unfold wf_text in H. apply andb_true_iff in H. destruct H as [_ H]. rewrite forallb_forall in H.
+  specialize (H kv Hin). apply andb_true_iff in H. destruct H as [H1 H2]. split; [exact H1|].
+  destruct (fst kv) as [|c k]; split; intros E; try congruence.
+  destruct (xs_annots (snd kv)); [reflexivity|discriminate].
+Qed.
+
+Lemma has_decls_norm_t : forall n, has_decls (norm_ns_t n) = has_decls n.
+Proof. intros n. unfold has_decls, norm_ns_t. cbn [xs_entities xs_enums xs_actions xs_commons]. rewrite !is_nil_mapv. reflexivity. Qed.
+
+Lemma print_schema_items : forall s, wf_text s = true -> print_schema s = join_blocks true (map print_sitem (sitems_of s)).
+Proof.
+  intros s Hwf. assert (Hs : keys_sorted s = true) by (unfold wf_text in Hwf; apply andb_true_iff in Hwf; tauto).
+  unfold print_schema. cbv zeta. rewrite (sj_rec_id s Hs). unfold sitems_of. rewrite map_app, !map_map. cbn [print_sitem].
+  fold named_kv. f_equal. f_equal.
+  destruct (rec_get [] s) as [n|] eqn:E; [|reflexivity].
+  assert (Hin : In ([], n) s).
+  { clear -E. induction s as [|[k v] s IH]; [discriminate|]. cbn [rec_get] in E. destruct (str_eqb [] k) eqn:Ek.
+    - apply str_eqb_eq in Ek. inversion E; subst. left. reflexivity.
+    - right. exact (IH E). }
+  destruct (wf_text_in s _ Hwf Hin) as [Hn _]. cbn [snd] in Hn. rewrite (decl_blocks_items 0 n Hn), map_map. reflexivity.
+Qed.
+
+Lemma swf_sitems : forall s, wf_text s = true -> forallb swf (sitems_of s) = true.
+Proof.
+  intros s Hwf. unfold sitems_of. rewrite forallb_app. apply andb_true_iff. split.
+  - destruct (rec_get [] s) as [n|] eqn:E; [|reflexivity].
+    assert (Hin : In ([], n) s).
+    { clear -E. induction s as [|[k v] s IH]; [discriminate|]. cbn [rec_get] in E. destruct (str_eqb [] k) eqn:Ek.
+      - apply str_eqb_eq in Ek. inversion E; subst. left. reflexivity.
+      - right. exact (IH E). }
+    destruct (wf_text_in s _ Hwf Hin) as [Hn _]. cbn [snd] in Hn.
+    apply wf_ns_t_iff in Hn. destruct Hn as [Han Hes Hesw Hens Hensw Hdj Hcs Hcsw Has Hasw].
+    unfold items_of. rewrite !map_app, !forallb_app. rewrite !forallb_forall in *.
+    repeat (apply andb_true_iff; split); apply forallb_forall; intros x Hx; apply in_map_iff in Hx; destruct Hx as (it & <- & Hit);
+      apply in_map_iff in Hit; destruct Hit as (kv & <- & Hkv); cbn [swf wf_item]; auto.
+  - apply forallb_forall. intros x Hx. apply in_map_iff in Hx. destruct Hx as (kv & <- & Hkv). apply filter_In in Hkv. destruct Hkv as [Hkv Hnm].
+    destruct (wf_text_in s kv Hwf Hkv) as (Hn & _ & Hp). cbn [swf]. rewrite Hn, Hp; [reflexivity|].
+    unfold named_kv in Hnm. destruct (fst kv); [discriminate|discriminate].
+Qed.
+
+Lemma set_annots_nil_id : forall n, xs_annots n = [] -> set_annots (norm_ns_t n) [] = norm_ns_t n.
+Proof. intros [an es ens cs acts] H. cbn in H. subst an. reflexivity. Qed.
+
+Lemma sitems_result : forall s, wf_text s = true ->
+  sfresh (sitems_of s) (empty_ns, []) /\ sresult (ssteps (sitems_of s) (empty_ns, [])) = norm_text s.
+Proof.
+  intros s Hwf. assert (Hs : keys_sorted s = true) by (unfold wf_text in Hwf; apply andb_true_iff in Hwf; tauto).
+  unfold sitems_of, norm_text.
+  destruct s as [|[k n0] named].
+  { split; [exact I|reflexivity]. }
+  pose proof (sorted_tail_nonnil _ _ _ _ Hs) as Hnn.
+  destruct k as [|c k].
+  - cbn [rec_get filter named_kv fst is_nil negb]. change (str_eqb [] []) with true. cbv iota.
+    rewrite (filter_named_all named Hnn).
+    destruct (wf_text_in _ ([], n0) Hwf (or_introl eq_refl)) as (Hn & Han & _). cbn [fst snd] in *.
+    destruct (items_fold n0 Hn) as [Hfresh Hfold].
+    destruct (ssteps_SD (items_of n0) empty_ns []) as [E1 F1].
+    destruct (ssteps_SN named [] (add_items (items_of n0) empty_ns) ltac:(apply keys_sorted_cons in Hs; tauto)) as [E2 F2].
+    cbn [app] in E2. change (mapv norm_ns_t []) with (@nil (str * x_ns)) in E2, F2.
+    assert (E : ssteps (map SD (items_of n0) ++ map SN named) (empty_ns, []) = (add_items (items_of n0) empty_ns, mapv norm_ns_t named)).
+    { rewrite ssteps_app. etransitivity; [exact (f_equal (ssteps (map SN named)) E1)|exact E2]. }
+    split.
+    + apply sfresh_app. split; [exact (F1 Hfresh)|].
+      assert (G : forall p, p = (add_items (items_of n0) empty_ns, @nil (str * x_ns)) -> sfresh (map SN named) p) by (intros p ->; exact F2).
+      apply G. exact E1.
+    + transitivity (sresult (add_items (items_of n0) empty_ns, mapv norm_ns_t named)); [exact (f_equal sresult E)|].
+      unfold sresult. cbn [fst snd]. rewrite Hfold, (set_annots_nil_id n0 (Han eq_refl)), has_decls_norm_t.
+      cbn [filter]. unfold ns_keep at 1. cbn [fst snd is_nil negb orb]. rewrite (filter_keep_all named Hnn).
+      destruct (has_decls n0); reflexivity.
+  - assert (Hall : Forall (fun kv : str * x_ns => fst kv <> []) ((c :: k, n0) :: named)) by (constructor; [discriminate|exact Hnn]).
+    match goal with |- context [rec_get ?k0 ?l] =>
+      let R := fresh "R" in assert (R : rec_get k0 l = None) by (apply rec_get_nil_none; exact Hall); rewrite R end.
+    match goal with |- context [filter named_kv ?l] =>
+      let R := fresh "R" in assert (R : filter named_kv l = l) by (apply filter_named_all; exact Hall); rewrite R end.
+    match goal with |- context [filter ns_keep ?l] =>
+      let R := fresh "R" in assert (R : filter ns_keep l = l) by (apply filter_keep_all; exact Hall); rewrite R end.
+    cbn [app].
+    destruct (ssteps_SN ((c :: k, n0) :: named) [] empty_ns Hs) as [E2 F2].
+    change (mapv norm_ns_t []) with (@nil (str * x_ns)) in E2, F2. cbn [app] in E2.
+    split; [exact F2|]. transitivity (sresult (empty_ns, mapv norm_ns_t ((c :: k, n0) :: named))); [exact (f_equal sresult E2)|]. reflexivity.
+Qed.
+
+Theorem parse_print_schema : forall s, wf_text s = true -> parse_schema (print_schema s) = SOk (norm_text s).
+Proof.
+  intros s Hwf. unfold parse_schema. change (read_token {| p_tok := mk_tok KEOF []; p_src := print_schema s |}) with (rd (print_schema s)).
+  rewrite (print_schema_items s Hwf).
+  destruct (sitems_result s Hwf) as [Hfresh Hres].
+  destruct (schema_loop_lemma (sitems_of s) true empty_ns [] (parse_schema_fuel (length (join_blocks true (map print_sitem (sitems_of s)))))
+              (swf_sitems s Hwf) Hfresh ltac:(unfold parse_schema_fuel; lia)) as (st & Hrd & Hp).
+  rewrite Hrd. cbn [sbind]. rewrite Hp. f_equal. exact Hres.
+Qed.
+
+(* ------------------------------------------------------------------------------------------ *)
+(* Normalisation is idempotent and preserves wf_text                                           *)
+(* ------------------------------------------------------------------------------------------ *)
+Lemma norm_ty_idem : forall t, norm_ty (norm_ty t) = norm_ty t.
+Proof.
+  induction t as [| | |n|e IHe|fs IHfs|r|r] using xty_ind'; try reflexivity.
+  - cbn [norm_ty]. rewrite IHe. reflexivity.
+  - rewrite !norm_ty_rec. f_equal. rewrite sj_mapv_mapv. apply sj_mapv_ext_in. intros [key [[ty opt] an]] Hin.
+    rewrite Forall_forall in IHfs. specialize (IHfs _ Hin). cbn [fst snd] in *. unfold norm_attr. cbn [fst snd]. rewrite IHfs. reflexivity.
+Qed.
+
+Lemma wf_tty_norm : forall t, wf_tty t = true -> wf_tty (norm_ty t) = true.
+Proof.
+  induction t as [| | |n|e IHe|fs IHfs|r|r] using xty_ind'; intros H; try exact H; try reflexivity.
+  - cbn [norm_ty wf_tty] in *. exact (IHe H).
+  - rewrite norm_ty_rec, wf_tty_rec in *. apply andb_true_iff in H. destruct H as [Hs Hall]. apply andb_true_iff. split.
+    + rewrite sj_sorted_mapv. exact Hs.
+    + rewrite forallb_forall in *. intros kv Hkv. unfold mapv in Hkv. apply in_map_iff in Hkv. destruct Hkv as (x & <- & Hx).
+      specialize (Hall x Hx). rewrite Forall_forall in IHfs. specialize (IHfs x Hx).
+      unfold wf_tattr, norm_attr in *. cbn [fst snd]. apply andb_true_iff in Hall. destruct Hall as [Hall Han].
+      apply andb_true_iff in Hall. destruct Hall as [Hk Ht]. rewrite Hk, Han, (IHfs Ht). reflexivity.
+Qed.
+
+Lemma opt_wf_tty_norm : forall o, opt_wf_tty o = true -> opt_wf_tty (option_map norm_ty o) = true.
+Proof. intros [t|] H; [exact (wf_tty_norm t H)|reflexivity]. Qed.
+Lemma opt_wf_rec_norm : forall o, opt_wf_tty (option_map XRec o) = true -> opt_wf_tty (option_map XRec (option_map norm_rec o)) = true.
+Proof. intros [fs|] H; [|reflexivity]. cbn [option_map opt_wf_tty] in *. unfold norm_rec. rewrite <- norm_ty_rec. exact (wf_tty_norm _ H). Qed.
+
+Lemma norm_entity_t_idem : forall e, norm_entity_t (norm_entity_t e) = norm_entity_t e.
+Proof.
+  intros [an ps sh tg]. unfold norm_entity_t. cbn [xe_annots xe_parents xe_shape xe_tags]. f_equal.
+  - destruct sh as [fs|]; [|reflexivity]. cbn [option_map]. f_equal.
+    pose proof (norm_ty_idem (XRec fs)) as H. rewrite !norm_ty_rec in H. inversion H as [H1]. unfold norm_rec. exact H1.
+  - destruct tg as [t|]; [|reflexivity]. cbn [option_map]. rewrite norm_ty_idem. reflexivity.
+Qed.
+Lemma norm_common_t_idem : forall c, norm_common_t (norm_common_t c) = norm_common_t c.
+Proof. intros [an t]. unfold norm_common_t. cbn [xc_annots xc_type]. rewrite norm_ty_idem. reflexivity. Qed.
+Lemma norm_applies_t_idem : forall a, norm_applies_t (norm_applies_t a) = norm_applies_t a.
+Proof. intros [ps rs c]. unfold norm_applies_t. cbn [xa_principals xa_resources xa_context]. destruct c as [t|]; [|reflexivity]. cbn [option_map]. rewrite norm_ty_idem. reflexivity. Qed.
+Lemma norm_action_t_idem : forall a, norm_action_t (norm_action_t a) = norm_action_t a.
+Proof. intros [an ps ap]. unfold norm_action_t. cbn [xac_annots xac_parents xac_applies]. destruct ap as [a|]; [|reflexivity]. cbn [option_map]. rewrite norm_applies_t_idem. reflexivity. Qed.
+
+Lemma norm_ns_t_idem : forall n, norm_ns_t (norm_ns_t n) = norm_ns_t n.
+Proof.
+  intros n. unfold norm_ns_t. cbn [xs_annots xs_entities xs_enums xs_commons xs_actions]. rewrite !sj_mapv_mapv. f_equal.
+  - apply sj_mapv_ext_in. intros kv _. apply norm_entity_t_idem.
+  - apply sj_mapv_ext_in. intros kv _. apply norm_common_t_idem.
+  - apply sj_mapv_ext_in. intros kv _. apply norm_action_t_idem.
+Qed.
+
+Lemma filter_keep_norm_t : forall l, filter ns_keep (mapv norm_ns_t l) = mapv norm_ns_t (filter ns_keep l).
+Proof.
+  induction l as [|[name n] l IH]; [reflexivity|]. rewrite sj_mapv_cons. cbn [filter fst snd]. rewrite IH.
+  unfold ns_keep. cbn [fst snd]. rewrite has_decls_norm_t. destruct (negb (is_nil name) || has_decls n); reflexivity.
+Qed.
+
+Theorem norm_text_idem : forall s, norm_text (norm_text s) = norm_text s.
+Proof.
+  intros s. unfold norm_text. rewrite filter_keep_norm_t, filter_idem, sj_mapv_mapv.
+  apply sj_mapv_ext_in. intros kv _. apply norm_ns_t_idem.
+Qed.
+
+Lemma forallb_mapv : forall (A B : Type) (g : A -> B) (p : str * B -> bool) (q : str * A -> bool) l,
+  (forall kv, In kv l -> q kv = true -> p (fst kv, g (snd kv)) = true) -> forallb q l = true -> forallb p (mapv g l) = true.
+Proof.
+  intros A B g p q l H Hq. rewrite forallb_forall in *. intros kv Hkv. unfold mapv in Hkv. apply in_map_iff in Hkv.
+  destruct Hkv as (x & <- & Hx). apply H; [exact Hx|apply Hq; exact Hx].
+Qed.
+
+Lemma wf_entity_t_norm : forall e, wf_entity_t e = true -> wf_entity_t (norm_entity_t e) = true.
+Proof.
+  intros e H. unfold wf_entity_t in *. cbn [norm_entity_t xe_annots xe_parents xe_shape xe_tags].
+  apply andb_true_iff in H. destruct H as [H Ht]. apply andb_true_iff in H. destruct H as [H Hs]. rewrite H.
+  rewrite (opt_wf_rec_norm _ Hs), (opt_wf_tty_norm _ Ht). reflexivity.
+Qed.
+Lemma wf_common_t_norm : forall c, wf_common_t c = true -> wf_common_t (norm_common_t c) = true.
+Proof.
+  intros c H. unfold wf_common_t in *. cbn [norm_common_t xc_annots xc_type]. apply andb_true_iff in H. destruct H as [H Ht].
+  rewrite H, (wf_tty_norm _ Ht). reflexivity.
+Qed.
+Lemma wf_action_t_norm : forall a, wf_action_t a = true -> wf_action_t (norm_action_t a) = true.
+Proof.
+  intros a H. unfold wf_action_t in *. cbn [norm_action_t xac_annots xac_parents xac_applies]. apply andb_true_iff in H. destruct H as [H Hap].
+  rewrite H. destruct (xac_applies a) as [ap|]; [|reflexivity]. cbn [option_map andb].
+  unfold wf_applies_t in *. cbn [norm_applies_t xa_principals xa_resources xa_context]. apply andb_true_iff in Hap. destruct Hap as [Hap Hc].
+  rewrite Hap, (opt_wf_tty_norm _ Hc). reflexivity.
+Qed.
+
+Lemma wf_ns_t_norm : forall n, wf_ns_t n = true -> wf_ns_t (norm_ns_t n) = true.
+Proof.
+  intros n Hwf. apply wf_ns_t_iff in Hwf. destruct Hwf as [Han Hes Hesw Hens Hensw Hdj Hcs Hcsw Has Hasw].
+  apply wf_ns_t_iff. constructor; cbn [norm_ns_t xs_annots xs_entities xs_enums xs_commons xs_actions]; auto.
+  - rewrite sj_sorted_mapv. exact Hes.
+  - refine (forallb_mapv _ _ _ _ _ _ _ Hesw). intros kv _ H. cbn [fst snd]. apply andb_true_iff in H. destruct H as [H1 H2].
+    rewrite H1, (wf_entity_t_norm _ H2). reflexivity.
+  - unfold disjoint_keys in *. rewrite sj_mapv_keys. exact Hdj.
+  - rewrite sj_sorted_mapv. exact Hcs.
+  - refine (forallb_mapv _ _ _ _ _ _ _ Hcsw). intros kv _ H. cbn [fst snd]. apply andb_true_iff in H. destruct H as [H1 H2].
+    rewrite H1, (wf_common_t_norm _ H2). reflexivity.
+  - rewrite sj_sorted_mapv. exact Has.
+  - refine (forallb_mapv _ _ _ _ _ _ _ Hasw). intros kv _ H. cbn [fst snd]. apply andb_true_iff in H. destruct H as [H1 H2].
+    rewrite H1, (wf_action_t_norm _ H2). reflexivity.
+Qed.
+
+Theorem wf_norm_text : forall s, wf_text s = true -> wf_text (norm_text s) = true.
+Proof.
+  intros s Hwf. assert (Hs : keys_sorted s = true) by (unfold wf_text in Hwf; apply andb_true_iff in Hwf; tauto).
+  unfold wf_text. apply andb_true_iff. split.
+  - unfold norm_text. rewrite sj_sorted_mapv. apply sj_sorted_filter. exact Hs.
+  - apply forallb_forall. intros kv Hkv. unfold norm_text, mapv in Hkv. apply in_map_iff in Hkv. destruct Hkv as (x & <- & Hx).
+    apply filter_In in Hx. destruct Hx as [Hx _]. unfold wf_text in Hwf. apply andb_true_iff in Hwf. destruct Hwf as [_ Hall].
+    rewrite forallb_forall in Hall. specialize (Hall x Hx). apply andb_true_iff in Hall. destruct Hall as [H1 H2]. cbn [fst snd].
+    rewrite (wf_ns_t_norm _ H1). exact H2.
+Qed.
+
+Theorem norm_text_idempotent : forall s, wf_text s = true -> norm_text (norm_text s) = norm_text s /\ wf_text (norm_text s) = true.
+Proof. intros s Hwf. split; [apply norm_text_idem|apply wf_norm_text; exact Hwf]. Qed.
+
+(* ------------------------------------------------------------------------------------------ *)
+(* A second rendering is byte-identical                                                        *)
+(* ------------------------------------------------------------------------------------------ *)
+Lemma pf_norm : forall ind fs,
+  Forall (fun kv : str * xattr => wf_tty (fst (fst (snd kv))) = true -> forall i, print_type (norm_ty (fst (fst (snd kv)))) i = print_type (fst (fst (snd kv))) i) fs ->
+  forallb wf_tattr fs = true -> pf ind (mapv norm_attr fs) = pf ind fs.
+Proof.
+  intros ind fs HF. induction HF as [|[key [[ty opt] an]] fs Hx HF IH]; intros Hwf; [reflexivity|].
+  cbn [forallb] in Hwf. apply andb_true_iff in Hwf. destruct Hwf as [Hw Hwf].
+  unfold wf_tattr in Hw. cbn [fst snd] in *. apply andb_true_iff in Hw. destruct Hw as [Hw _]. apply andb_true_iff in Hw. destruct Hw as [_ Hty].
+  rewrite sj_mapv_cons. cbn [pf fst snd norm_attr]. rewrite (IH Hwf), (Hx Hty). destruct fs; reflexivity.
+Qed.
+
+Lemma print_type_norm : forall t, wf_tty t = true -> forall ind, print_type (norm_ty t) ind = print_type t ind.
+Proof.
+  induction t as [| | |n|e IHe|fs IHfs|r|r] using xty_ind'; intros Hwf ind; try reflexivity.
+  - cbn [norm_ty print_type wf_tty] in *. rewrite (IHe Hwf). reflexivity.
+  - pose proof (wf_tty_norm _ Hwf) as Hwf'. rewrite norm_ty_rec in *.
+    rewrite (print_type_rec_eq _ ind Hwf'), (print_type_rec_eq _ ind Hwf).
+    rewrite wf_tty_rec in Hwf. apply andb_true_iff in Hwf. destruct Hwf as [_ Hall].
+    rewrite (pf_norm (S ind) fs IHfs Hall). destruct fs; reflexivity.
+Qed.
+
+Lemma print_entity_norm : forall ind k e, wf_entity_t e = true -> print_entity ind (k, norm_entity_t e) = print_entity ind (k, e).
+Proof.
+  intros ind k e H. unfold wf_entity_t in H. apply andb_true_iff in H. destruct H as [H Ht]. apply andb_true_iff in H. destruct H as [_ Hs].
+  unfold print_entity. cbv zeta. cbn [fst snd norm_entity_t xe_annots xe_parents xe_shape xe_tags].
+  destruct (xe_shape e) as [fs|]; destruct (xe_tags e) as [t|]; cbn [option_map opt_wf_tty] in *;
+    unfold norm_rec; rewrite <- ?norm_ty_rec, ?(print_type_norm _ Hs), ?(print_type_norm _ Ht); reflexivity.
+Qed.
+Lemma print_common_norm : forall ind k c, wf_common_t c = true -> print_common ind (k, norm_common_t c) = print_common ind (k, c).
+Proof.
+  intros ind k c H. unfold wf_common_t in H. apply andb_true_iff in H. destruct H as [_ Ht].
+  unfold print_common. cbn [fst snd norm_common_t xc_annots xc_type]. rewrite (print_type_norm _ Ht). reflexivity.
+Qed.
+Lemma print_action_norm : forall ind k a, wf_action_t a = true -> print_action ind (k, norm_action_t a) = print_action ind (k, a).
+Proof.
+  intros ind k a H. unfold wf_action_t in H. apply andb_true_iff in H. destruct H as [_ Hap].
+  unfold print_action. cbv zeta. cbn [fst snd norm_action_t xac_annots xac_parents xac_applies].
+  destruct (xac_applies a) as [ap|]; [|reflexivity]. cbn [option_map]. f_equal. f_equal. f_equal.
+  unfold wf_applies_t in Hap. apply andb_true_iff in Hap. destruct Hap as [_ Hc].
+  unfold print_applies. cbn [norm_applies_t xa_principals xa_resources xa_context].
+  destruct (xa_context ap) as [t|]; [|reflexivity]. cbn [option_map opt_wf_tty] in *. rewrite (print_type_norm _ Hc). reflexivity.
+Qed.
+
+Lemma map_mapv_ext : forall (A : Type) (g : A -> A) (h : str * A -> str) l,
+  (forall kv, In kv l -> h (fst kv, g (snd kv)) = h kv) -> map h (mapv g l) = map h l.
+Proof. intros A g h l H. unfold mapv. rewrite map_map. apply map_ext_in. intros kv Hkv. apply H. exact Hkv. Qed.
+
+Lemma decl_blocks_norm : forall ind n, wf_ns_t n = true -> decl_blocks ind (norm_ns_t n) = decl_blocks ind n.
+Proof.
+  intros ind n Hwf. pose proof (wf_ns_t_norm _ Hwf) as Hwf'.
+  apply wf_ns_t_iff in Hwf. destruct Hwf as [Han Hes Hesw Hens Hensw Hdj Hcs Hcsw Has Hasw].
+  apply wf_ns_t_iff in Hwf'. destruct Hwf' as [Han' Hes' _ Hens' _ _ Hcs' _ Has' _].
+  unfold decl_blocks. rewrite !sj_rec_id by assumption. cbn [norm_ns_t xs_entities xs_enums xs_commons xs_actions].
+  rewrite forallb_forall in Hesw, Hcsw, Hasw. f_equal; [|f_equal; [|f_equal]].
+  - apply map_mapv_ext. intros [k c] Hkv. specialize (Hcsw _ Hkv). cbn [fst snd] in *. apply andb_true_iff in Hcsw. destruct Hcsw as [_ Hc].
+    apply print_common_norm. exact Hc.
+  - apply map_mapv_ext. intros [k e] Hkv. specialize (Hesw _ Hkv). cbn [fst snd] in *. apply andb_true_iff in Hesw. destruct Hesw as [_ He].
+    apply print_entity_norm. exact He.
+  - apply map_mapv_ext. intros [k a] Hkv. specialize (Hasw _ Hkv). cbn [fst snd] in *. apply andb_true_iff in Hasw. destruct Hasw as [_ Ha].
+    apply print_action_norm. exact Ha.
+Qed.
+
+Lemma print_namespace_norm : forall k n, wf_ns_t n = true -> print_namespace (k, norm_ns_t n) = print_namespace (k, n).
+Proof. intros k n Hwf. unfold print_namespace. cbn [fst snd]. rewrite (decl_blocks_norm 1 n Hwf). reflexivity. Qed.
+
+Lemma decl_blocks_empty : forall ind n, has_decls n = false -> decl_blocks ind n = [].
+Proof.
+  intros ind n H. unfold has_decls in H. apply negb_false_iff in H. repeat (apply andb_true_iff in H; destruct H as [H ?]).
+  unfold decl_blocks. destruct (xs_entities n); [|discriminate]. destruct (xs_enums n); [|discriminate].
+  destruct (xs_actions n); [|discriminate]. destruct (xs_commons n); [|discriminate]. reflexivity.
+Qed.
+
+Lemma rec_get_mapv_nonnil : forall (l : x_schema), Forall (fun kv => fst kv <> []) l -> rec_get [] (mapv norm_ns_t l) = None.
+Proof.
+  intros l H. induction H as [|[k v] l Hk Hl IH]; [reflexivity|]. rewrite sj_mapv_cons. cbn [rec_get fst snd] in *.
+  destruct k; [contradiction|]. exact IH.
+Qed.
+Lemma filter_named_mapv : forall (l : x_schema), Forall (fun kv => fst kv <> []) l -> filter named_kv (mapv norm_ns_t l) = mapv norm_ns_t l.
+Proof.
+  intros l H. induction H as [|[k v] l Hk Hl IH]; [reflexivity|]. rewrite sj_mapv_cons. cbn [filter named_kv fst snd] in *.
+  destruct k; [contradiction|]. cbn [is_nil negb]. rewrite IH. reflexivity.
+Qed.
+
+Lemma map_print_namespace_norm : forall (l : x_schema), (forall kv, In kv l -> wf_ns_t (snd kv) = true) ->
+  map print_namespace (mapv norm_ns_t l) = map print_namespace l.
+Proof.
+  intros l H. apply map_mapv_ext. intros [k n] Hkv. cbn [fst snd]. apply print_namespace_norm. apply (H _ Hkv).
+Qed.
+
+Corollary second_text_rendering : forall s, wf_text s = true -> print_schema (norm_text s) = print_schema s.
+Proof.
+  intros s Hwf. assert (Hs : keys_sorted s = true) by (unfold wf_text in Hwf; apply andb_true_iff in Hwf; tauto).
+  pose proof (wf_norm_text s Hwf) as Hwf'.
+  assert (Hs' : keys_sorted (norm_text s) = true) by (unfold wf_text in Hwf'; apply andb_true_iff in Hwf'; tauto).
+  unfold print_schema. cbv zeta. rewrite (sj_rec_id _ Hs), (sj_rec_id _ Hs').
+  change (fun kv : str * x_ns => negb (is_nil (fst kv))) with named_kv.
+  assert (Hin : forall kv, In kv s -> wf_ns_t (snd kv) = true) by (intros kv Hkv; apply (wf_text_in s kv Hwf Hkv)).
+  clear Hwf' Hs'. unfold norm_text.
+  destruct s as [|[k n0] named]; [reflexivity|].
+  pose proof (sorted_tail_nonnil _ _ _ _ Hs) as Hnn.
+  assert (Hin' : forall kv, In kv named -> wf_ns_t (snd kv) = true) by (intros kv Hkv; apply Hin; right; exact Hkv).
+  destruct k as [|c k].
+  - pose proof (Hin ([], n0) (or_introl eq_refl)) as Hn0. cbn [snd] in Hn0.
+    match goal with |- context [filter ns_keep ?l] =>
+      assert (K : filter ns_keep l = if has_decls n0 then l else named);
+        [cbn [filter]; unfold ns_keep at 1; cbn [fst snd is_nil negb orb]; rewrite (filter_keep_all named Hnn); reflexivity|rewrite K; clear K]
+    end.
+    match goal with |- context [filter named_kv (?a :: named)] =>
+      assert (R0 : filter named_kv (a :: named) = named);
+        [cbn [filter]; unfold named_kv at 1; cbn [fst is_nil negb]; apply filter_named_all; exact Hnn|rewrite R0; clear R0]
+    end.
+    cbn [rec_get fst]. change (str_eqb [] []) with true. cbv iota.
+    destruct (has_decls n0) eqn:Hd.
+    + rewrite sj_mapv_cons. cbn [rec_get fst snd filter]. unfold named_kv at 1. cbn [fst is_nil negb]. change (str_eqb [] []) with true. cbv iota.
+      rewrite (filter_named_mapv named Hnn), (decl_blocks_norm 0 n0 Hn0), (map_print_namespace_norm named Hin'). reflexivity.
+    + rewrite (rec_get_mapv_nonnil named Hnn), (filter_named_mapv named Hnn), (decl_blocks_empty 0 n0 Hd), (map_print_namespace_norm named Hin').
+      reflexivity.
+  - assert (Hall : Forall (fun kv : str * x_ns => fst kv <> []) ((c :: k, n0) :: named)) by (constructor; [discriminate|exact Hnn]).
+    match goal with |- context [filter ns_keep ?l] =>
+      let R := fresh "R" in assert (R : filter ns_keep l = l) by (apply filter_keep_all; exact Hall); rewrite R end.
+    match goal with |- context [rec_get ?k0 (mapv norm_ns_t ?l)] =>
+      let R := fresh "R" in assert (R : rec_get k0 (mapv norm_ns_t l) = None) by (apply rec_get_mapv_nonnil; exact Hall); rewrite R end.
+    match goal with |- context [filter named_kv (mapv norm_ns_t ?l)] =>
+      let R := fresh "R" in assert (R : filter named_kv (mapv norm_ns_t l) = mapv norm_ns_t l) by (apply filter_named_mapv; exact Hall); rewrite R end.
+    match goal with |- context [rec_get ?k0 (?a :: named)] =>
+      let R := fresh "R" in assert (R : rec_get k0 (a :: named) = None) by (apply rec_get_nil_none; exact Hall); rewrite R end.
+    match goal with |- context [filter named_kv (?a :: named)] =>
+      let R := fresh "R" in assert (R : filter named_kv (a :: named) = a :: named) by (apply filter_named_all; exact Hall); rewrite R end.
+    rewrite (map_print_namespace_norm _ Hin). reflexivity.
+Qed.
+
+(* ------------------------------------------------------------------------------------------ *)
+(* Why each clause of wf_text is there: concrete schemas (vm_compute)                          *)
+(* ------------------------------------------------------------------------------------------ *)
+Definition ent0 : x_entity := {| xe_annots := []; xe_parents := []; xe_shape := None; xe_tags := None |}.
+Definition ns0 : x_ns := {| xs_annots := []; xs_entities := [(s_of "A", ent0)]; xs_enums := []; xs_commons := []; xs_actions := [] |}.
+Definition with_entity (name : str) (e : x_entity) (n : x_ns) : x_ns := set_entities n (rec_insert name e (xs_entities n)).
+Definition act (ap : option x_applies) : x_action := {| xac_annots := []; xac_parents := []; xac_applies := ap |}.
+
+(* finding F45: an appliesTo without principal (or resource) types prints as a text that the grammar rejects *)
+Definition f45_schema : x_schema :=
+  [([], set_actions ns0 [(s_of "view", act (Some {| xa_principals := []; xa_resources := [s_of "A"]; xa_context := None |}))])].
+Example f45_rejected : parse_schema (print_schema f45_schema) = SErr /\ wf_text f45_schema = false.
+Proof. split; vm_compute; reflexivity. Qed.
+
+(* a type named `Set` cannot be referenced in a type position (parseType takes it for the set constructor) ... *)
+Definition set_attr_schema : x_schema :=
+  [([], with_entity (s_of "B") {| xe_annots := []; xe_parents := []; xe_shape := Some [(s_of "x", (XRef (s_of "Set"), false, []))]; xe_tags := None |}
+                    (with_entity (s_of "Set") ent0 ns0))].
+Example set_type_rejected : parse_schema (print_schema set_attr_schema) = SErr /\ wf_text set_attr_schema = false.
+Proof. split; vm_compute; reflexivity. Qed.
+(* ... but it can be declared and referenced as an entity type (memberOfTypes, principal / resource types): ent_path is weaker than type_path *)
+Definition set_parent_schema : x_schema :=
+  [([], with_entity (s_of "B") {| xe_annots := []; xe_parents := [s_of "Set"]; xe_shape := None; xe_tags := None |} (with_entity (s_of "Set") ent0 ns0))].
+Example set_parent_ok : wf_text set_parent_schema = true /\ parse_schema (print_schema set_parent_schema) = SOk set_parent_schema.
+Proof. split; vm_compute; reflexivity. Qed.
+
+(* quoted strings must be valid UTF-8: quoteCedar writes an invalid byte as \u{fffd} *)
+Definition bad_utf8_schema : x_schema :=
+  [([], {| xs_annots := []; xs_entities := []; xs_enums := [(s_of "E", {| xn_annots := []; xn_values := [[255]] |})]; xs_commons := []; xs_actions := [] |})].
+Example bad_utf8_changes : parse_schema (print_schema bad_utf8_schema)
+  = SOk [([], {| xs_annots := []; xs_entities := []; xs_enums := [(s_of "E", {| xn_annots := []; xn_values := [[239; 191; 189]] |})];
+                 xs_commons := []; xs_actions := [] |})]
+  /\ wf_text bad_utf8_schema = false.
+Proof. split; vm_compute; reflexivity. Qed.
+
+(* a common type may not be named like a reserved type name (parseTypeDecl rejects `type Bool = ...`) *)
+Definition reserved_common_schema : x_schema :=
+  [([], set_commons ns0 [(s_of "Bool", {| xc_annots := []; xc_type := XLong |})])].
+Example reserved_common_rejected : parse_schema (print_schema reserved_common_schema) = SErr /\ wf_text reserved_common_schema = false.
+Proof. split; vm_compute; reflexivity. Qed.
+
+(* declared entity names are written verbatim: they must be identifiers *)
+Definition bad_name_schema : x_schema := [([], with_entity (s_of "a b") ent0 ns0)].
+Example bad_name_rejected : parse_schema (print_schema bad_name_schema) = SErr /\ wf_text bad_name_schema = false.
+Proof. split; vm_compute; reflexivity. Qed.
+
+(* an entity type and an enumerated type of the same name: the second declaration is rejected *)
+Definition clash_schema : x_schema := [([], set_enums ns0 [(s_of "A", {| xn_annots := []; xn_values := [s_of "v"] |})])].
+Example clash_rejected : parse_schema (print_schema clash_schema) = SErr /\ wf_text clash_schema = false.
+Proof. split; vm_compute; reflexivity. Qed.
+
+(* the annotations of the bare declarations are not part of the AST: the printer drops them *)
+Definition bare_annot_schema : x_schema := [([], set_annots ns0 [(s_of "doc", s_of "x")])].
+Example bare_annot_dropped : parse_schema (print_schema bare_annot_schema) = SOk [([], ns0)] /\ wf_text bare_annot_schema = false.
+Proof. split; vm_compute; reflexivity. Qed.
+
+(* no component of a namespace name may be __cedar (while a type reference may start with it) *)
+Definition cedar_ns_schema : x_schema := [(s_of "__cedar", ns0)].
+Example cedar_ns_rejected : parse_schema (print_schema cedar_ns_schema) = SErr /\ wf_text cedar_ns_schema = false.
+Proof. split; vm_compute; reflexivity. Qed.
+Definition cedar_ref_schema : x_schema :=
+  [([], with_entity (s_of "B") {| xe_annots := []; xe_parents := []; xe_shape := Some [(s_of "x", (XRef (s_of "__cedar::String"), false, []))]; xe_tags := None |} ns0)].
+Example cedar_ref_ok : wf_text cedar_ref_schema = true /\ parse_schema (print_schema cedar_ref_schema) = SOk cedar_ref_schema.
+Proof. split; vm_compute; reflexivity. Qed.
+
+(* an annotation key may be a reserved word; a name that is one is written quoted *)
+Definition reserved_words_schema : x_schema :=
+  [([], set_actions (set_annots ns0 []) [(s_of "in", {| xac_annots := [(s_of "if", []); (s_of "is", s_of "x")]; xac_parents := []; xac_applies := None |})])].
+Example reserved_words_ok : wf_text reserved_words_schema = true /\ parse_schema (print_schema reserved_words_schema) = SOk reserved_words_schema.
+Proof. split; vm_compute; reflexivity. Qed.
+
+(* the builtin names come back as type references *)
+Definition builtin_schema : x_schema :=
+  [([], set_commons ns0 [(s_of "T", {| xc_annots := []; xc_type := XSet (XRec [(s_of "a", (XLong, true, [])); (s_of "b", (XExt (s_of "ipaddr"), false, []))]) |})])].
+Example builtin_normalised : parse_schema (print_schema builtin_schema)
+  = SOk [([], set_commons ns0 [(s_of "T", {| xc_annots := []; xc_type := XSet (XRec [(s_of "a", (XRef (s_of "Long"), true, [])); (s_of "b", (XRef (s_of "ipaddr"), false, []))]) |})])].
+Proof. vm_compute. reflexivity. Qed.
+
+(* ------------------------------------------------------------------------------------------ *)
+(* wf_text implies the well-formedness of the JSON codec (SchemaJsonProofs.wf_schema)          *)
+(* ------------------------------------------------------------------------------------------ *)
+Lemma wf_tty_wf_ty : forall t, wf_tty t = true -> wf_ty t = true.
+Proof.
+  induction t as [| | |n|e IHe|fs IHfs|r|r] using xty_ind'; intros H; try reflexivity.
+  - exact (IHe H).
+  - rewrite wf_tty_rec in H. rewrite wf_ty_rec. apply andb_true_iff in H. destruct H as [Hs Hall]. rewrite Hs. cbn [andb].
+    rewrite forallb_forall in *. intros kv Hkv. specialize (Hall kv Hkv). rewrite Forall_forall in IHfs. specialize (IHfs kv Hkv).
+    unfold wf_tattr in Hall. unfold wf_xattr. apply andb_true_iff in Hall. destruct Hall as [Hall Han]. apply andb_true_iff in Hall.
+    destruct Hall as [_ Ht]. destruct (annots_ok_inv _ Han) as [Hans _]. rewrite (IHfs Ht), Hans. reflexivity.
+Qed.
+Lemma opt_wf_tty_wf_ty : forall o, opt_wf_tty o = true -> opt_wf_ty o = true.
+Proof. intros [t|] H; [exact (wf_tty_wf_ty t H)|reflexivity]. Qed.
+
+Lemma forallb_impl : forall (A : Type) (p q : A -> bool) l, (forall x, p x = true -> q x = true) -> forallb p l = true -> forallb q l = true.
+Proof. intros A p q l H Hp. rewrite forallb_forall in *. intros x Hx. apply H. apply Hp. exact Hx. Qed.
+
+Lemma wf_ns_t_wf_ns : forall n, wf_ns_t n = true -> wf_ns n = true.
+Proof.
+  intros n Hwf. apply wf_ns_t_iff in Hwf. destruct Hwf as [Han Hes Hesw Hens Hensw Hdj Hcs Hcsw Has Hasw].
+  apply wf_ns_iff. constructor; try assumption.
+  - apply (annots_ok_inv _ Han).
+  - intros kv Hkv. rewrite forallb_forall in Hesw. specialize (Hesw kv Hkv). apply andb_true_iff in Hesw. destruct Hesw as [_ He].
+    unfold wf_entity_t in He. unfold wf_entity. apply andb_true_iff in He. destruct He as [He Ht]. apply andb_true_iff in He. destruct He as [He Hs].
+    apply andb_true_iff in He. destruct He as [Ha _]. destruct (annots_ok_inv _ Ha) as [Ha' _].
+    rewrite Ha', (opt_wf_tty_wf_ty _ Hs), (opt_wf_tty_wf_ty _ Ht). reflexivity.
+  - intros kv Hkv. rewrite forallb_forall in Hensw. specialize (Hensw kv Hkv). apply andb_true_iff in Hensw. destruct Hensw as [_ He].
+    unfold wf_enum_t in He. unfold wf_enum. apply andb_true_iff in He. destruct He as [Ha _]. apply (annots_ok_inv _ Ha).
+  - intros kv Hkv. rewrite forallb_forall in Hcsw. specialize (Hcsw kv Hkv). apply andb_true_iff in Hcsw. destruct Hcsw as [_ Hc].
+    unfold wf_common_t in Hc. unfold wf_common. apply andb_true_iff in Hc. destruct Hc as [Ha Ht]. destruct (annots_ok_inv _ Ha) as [Ha' _].
+    rewrite Ha', (wf_tty_wf_ty _ Ht). reflexivity.
+  - intros kv Hkv. rewrite forallb_forall in Hasw. specialize (Hasw kv Hkv). apply andb_true_iff in Hasw. destruct Hasw as [_ Hc].
+    unfold wf_action_t in Hc. unfold wf_action. apply andb_true_iff in Hc. destruct Hc as [Hc Hap]. apply andb_true_iff in Hc. destruct Hc as [Ha _].
+    destruct (annots_ok_inv _ Ha) as [Ha' _]. rewrite Ha'. cbn [andb]. destruct (xac_applies (snd kv)) as [ap|]; [|reflexivity].
+    unfold wf_applies_t in Hap. unfold wf_applies. apply andb_true_iff in Hap. destruct Hap as [_ Hc]. exact (opt_wf_tty_wf_ty _ Hc).
+Qed.
+
+Theorem wf_text_wf_schema : forall s, wf_text s = true -> wf_schema s = true.
+Proof.
+  intros s H. unfold wf_text in H. unfold wf_schema. apply andb_true_iff in H. destruct H as [Hs Hall]. rewrite Hs. cbn [andb].
+  refine (forallb_impl _ _ _ _ _ Hall). intros kv Hkv. apply andb_true_iff in Hkv. destruct Hkv as [H1 H2].
+  rewrite (wf_ns_t_wf_ns _ H1). cbn [andb]. destruct (fst kv); [exact H2|reflexivity].
+Qed.
